@@ -101,7 +101,7 @@ func checkC12(c *Ctx) {
 	r.NotDecided = []string{"clock/boundary behaviour at exactly the cutoff", "completeness of a scan racing with directory changes in the file store", "promptness in seconds", "blocking inside the stores (bounded by C09/NOBLOCK, not by cancellation)"}
 	r.Assumptions = []string{"time.Time.Before/After/Sub and time.Since semantics"}
 	r.Rule("C12/GUARD/expired", "RemoveMessage in the scan is dominated by the true edge of an older-than-cutoff predicate on the same message's Date(), cutoff = Now().Add(−retentionPeriod); arguments are Mailbox() and ID() of that message")
-	r.Rule("C12/ZERO", "every call of the scan is dominated by an edge implying retentionPeriod > 0 (a guard weakened to `< 0` lets period 0 scan with cutoff = now and delete everything)")
+	r.Rule("C12/ZERO", "every call of the scan is dominated by an edge implying retentionPeriod > 0 (a guard weakened to `< 0` lets period 0 scan with cutoff = now and delete everything); the field holds the configured RetentionPeriod unchanged")
 	r.Rule("C12/CANCEL", "RetentionScanner.Start / DoScan / visitor: every blocking operation is a select with a ctx.Done() arm that leaves; every exit of Start closes retentionShutdown; Join receives from it")
 	r.Rule("C12/COMPLETE", "a failed RemoveMessage does not end the scan: from its error edge no return inside the message loop, no jump out of that loop and no visitor result other than true is reachable except where ctx cancellation was observed")
 	r.Rule("C12/VISIT", "both stores' VisitMailboxes call the visitor with no lock held and pass it a freshly allocated slice")
@@ -204,6 +204,25 @@ func checkC12(c *Ctx) {
 	r.Floor("C12/GUARD/expired", "RemoveMessage sites in the scan", n, 1)
 
 	// ---- D2
+	// the field the guard tests is the configured period itself: a value adjusted on the way
+	// (clamped to a minimum, defaulted) no longer says "0 = disabled"
+	{
+		sts := eng.StoresToField(pkgFuncs(p, "pkg/storage"), fPeriod)
+		for i, st := range sts {
+			cons := "period-source@" + shortFn(eng.Outer(st.Fn))
+			if len(sts) > 1 {
+				cons += "#" + itoa(int64(i+1))
+			}
+			v := eng.StripConv(resolveCell(eng.StripConv(st.Store.Val)))
+			f := eng.LoadedField(v)
+			if f != nil && f.Name() == "RetentionPeriod" && f.Pkg() != nil && f.Pkg().Path() == eng.Mod+"/pkg/config" {
+				r.Ok("C12/ZERO", cons, p.InstrPos(st.Store), "retentionPeriod is the configured RetentionPeriod, unchanged")
+			} else {
+				r.Bad("C12/ZERO", cons, p.InstrPos(st.Store), "retentionPeriod is not the configured RetentionPeriod itself (it is computed or adjusted before it is stored): a configured period of 0, which must disable retention, can become a positive period that passes the `> 0` guard, and the scan then deletes mail")
+			}
+		}
+		r.Floor("C12/ZERO", "stores to RetentionScanner.retentionPeriod", len(sts), 1)
+	}
 	callers := p.CallersOf(scan)
 	r.Floor("C12/ZERO", "non-test callers of the scan", len(callers), 1)
 	for _, e := range callers {
